@@ -101,6 +101,45 @@ CHECKS = {
         note="Tuples and lists are identified after JSON; an unspecified return address (no later op survives) is not compared.",
         design="2/C14",
     ),
+    "C04": dict(
+        category="exploration",
+        technique="exhaustive enumeration of parameter values x printing contexts (print->parse round trip through both decompilers) and of literal spellings against an independent evaluation of the documented rules",
+        text="All strings up to a length bound over {a, blank, newline, both quotes, backslash, n} (+ triple-quote atoms) in 10 "
+             "printing contexts, all 16-bit integers, all 32768 fixed-point values k/256, constants, position marks and routine "
+             "targets are printed by the real decompilers, compiled back and compared by value; all short single- and multi-line "
+             "literals, integer and decimal spellings are compiled and compared with the rules of the language specification.",
+        note="Strings that need a backslash escape and an indentation-preserving form at once have no lossless literal: open known "
+             "finding matched by exact value and context. Fixed point values are those from_float(k/256) builds.",
+        design="2/C04",
+    ),
+    "C16": dict(
+        category="exploration",
+        technique="exhaustive single (thorough: adjacent double) separator deviations at every token boundary of each base program, plus alternative spellings; compiled ops compared with the base",
+        text="For every base program (lexer-corner programs, a rotating slice of G-forms and G-prog) every token boundary is "
+             "re-spelled with 11 separators (blanks, line breaks, comments, line joining) and with nothing where re-lexing "
+             "allows; EOF/prefix variants, whole-text layouts and 11 alternative literal spellings; ops, jump structure, routine "
+             "tables and position-mark values must equal the base's.",
+        note="Token boundaries come from an independent tokenizer (vf/gen_layout.py).",
+        design="2/C16",
+    ),
+    "C17": dict(
+        category="exploration",
+        technique="exhaustive enumeration of all strings up to a length bound over a 14-character alphabet (and 24 characters at a shorter bound), plus accepted program texts in 10 spellings",
+        text="Every string of length <= 5 (quick) / 7 (thorough) over quotes, comment characters, newline, digits, sigils and "
+             "backslash is lexed with the real Pygments lexer; the token texts must concatenate to the (Pygments-normalised) "
+             "input; accepted programs must not produce Error tokens.",
+        note="Pygments' own preprocessing (CR/CRLF to LF, BOM, appended newline) is applied to the expected text too.",
+        design="2/C17",
+    ),
+    "C18": dict(
+        category="exploration",
+        technique="exhaustive enumeration of literal placements (subsets of 8 syntactic sites) x separator deviations at every token boundary inside and around the literals; differential oracle text-edit vs AST-edit",
+        text="For every program and spelling the PositionMarkVisitor's listing must equal an independent token scan (order, start, "
+             "end, name, tiles, half tiles); replacing exactly each reported span by the printed form of an edited mark must "
+             "compile to the same ops as editing that literal in the generator's AST.",
+        note="vf/gen_layout.scan is trusted as an independent reading of the lexical grammar.",
+        design="2/C18",
+    ),
 }
 
 PENDING = {
